@@ -18,7 +18,7 @@ Allowed(e) ==
   /\ ~e.panic
   /\ e.parsed => (e.prefix_ok /\ e.z)
   /\ (e.parsed /\ e.haskey) => e.canon_same
-TraceNext == l <= Len(Trace) /\ Trace[l].ev = "Did" /\ Allowed(Trace[l]) /\ l' = l + 1
+TraceNext == l <= Len(Trace) /\ Trace[l].ev = "Did" /\ Allowed(Trace[l]) = TRUE /\ l' = l + 1
 TraceSpec == TraceInit /\ [][TraceNext]_l
 
 TraceAccepted ==
